@@ -12,6 +12,109 @@ func init() {
 	scenarios["c03.writefail"] = scC03WriteFail
 	scenarios["c03.fault"] = scC03Fault
 	scenarios["c05.outage"] = scC05Outage
+	scenarios["c03.repeat"] = scC03Repeat
+	scenarios["c03.cancelkill"] = scC03CancelKill
+}
+
+// c03.repeat: the connection is lost several times in a row, each time with calls in flight; after every loss the client must
+// heal and everything issued so far must have returned (state left behind by one loss must not poison the next).
+func scC03Repeat(w *World, a Args, rng *rand.Rand) error {
+	applyDelays(w, a)
+	c, err := w.NewClient(ClientOpts{Name: "A", NoPing: true, BackoffMin: 2 * time.Millisecond, BackoffMax: 8 * time.Millisecond, Errors: a.Bool("errors")})
+	if err != nil {
+		return err
+	}
+	for round := 0; round < a.Int("losses", 3); round++ {
+		base := 1 + round*100
+		var wg sync.WaitGroup
+		for k, kind := range []string{"unary", "retry", "unary"} {
+			tok := base + k
+			w.Plan(tok, &Plan{Gated: true})
+			wg.Add(1)
+			go func(kind string, tok int) {
+				defer wg.Done()
+				ctx, cancel := context.WithTimeout(context.Background(), 6*time.Second)
+				defer cancel()
+				c.Call(ctx, kind, tok)
+			}(kind, tok)
+			w.WaitRunning(tok, 300*time.Millisecond)
+		}
+		pc := w.Proxy.Last()
+		style := []string{"fin", "rst"}[rng.Intn(2)]
+		w.Rec.Emit("WireFault", "conn", pc.ID, "fault", "kill/"+style, "dir", "both", "frame", 0)
+		pc.Kill(style)
+		for k := 0; k < 3; k++ {
+			w.Release(base + k)
+		}
+		done := make(chan struct{})
+		go func() { wg.Wait(); close(done) }()
+		waitCh(done, patience(3*time.Second))
+		healed := false
+		dl := time.Now().Add(patience(3 * time.Second))
+		for tok := base + 10; tok < base+90 && time.Now().Before(dl); tok += 5 {
+			if out := c.CallT("unary", tok, patience(2*time.Second)); out == "ok" {
+				healed = true
+				break
+			}
+			time.Sleep(3 * time.Millisecond)
+		}
+		if !healed {
+			break
+		}
+	}
+	if a.Bool("close") {
+		w.CloseClient(c)
+		w.Quiesce(nil, 0, 2*time.Second)
+		return nil
+	}
+	w.Quiesce(c, 9000, 3*time.Second)
+	return nil
+}
+
+// c03.cancelkill: many calls in flight, all their callers give up at the same moment the connection is lost (the callers are
+// handing their cancel notifications to the connection goroutine while it sweeps the in-flight table).
+func scC03CancelKill(w *World, a Args, rng *rand.Rand) error {
+	applyDelays(w, a)
+	n := a.Int("n", 60)
+	c, err := w.NewClient(ClientOpts{Name: "A", NoPing: true, BackoffMin: 2 * time.Millisecond, BackoffMax: 8 * time.Millisecond})
+	if err != nil {
+		return err
+	}
+	ctx, cancel := context.WithCancel(context.Background())
+	var wg sync.WaitGroup
+	for i := 1; i <= n; i++ {
+		w.Plan(i, &Plan{Gated: true})
+		wg.Add(1)
+		go func(i int) { defer wg.Done(); c.Call(ctx, "unary", i) }(i)
+	}
+	for i := 1; i <= n; i++ {
+		w.WaitRunning(i, 500*time.Millisecond)
+	}
+	for i := 1; i <= n; i++ {
+		w.Rec.Emit("CallerCancel", "call", i)
+	}
+	pc := w.Proxy.Last()
+	w.Rec.Emit("WireFault", "conn", pc.ID, "fault", "kill/fin", "dir", "both", "frame", 0)
+	go cancel()
+	if d := a.Int("skewus", 0); d > 0 {
+		time.Sleep(time.Duration(rng.Intn(d)) * time.Microsecond)
+	}
+	pc.Kill("fin")
+	for i := 1; i <= n; i++ {
+		w.Release(i)
+	}
+	done := make(chan struct{})
+	go func() { wg.Wait(); close(done) }()
+	waitCh(done, patience(4*time.Second))
+	dl := time.Now().Add(patience(3 * time.Second))
+	for tok := 1000; tok < 1400 && time.Now().Before(dl); tok += 10 {
+		if out := c.CallT("unary", tok, patience(2*time.Second)); out == "ok" || out == "pending" {
+			break
+		}
+		time.Sleep(3 * time.Millisecond)
+	}
+	w.Quiesce(c, 9000, 3*time.Second)
+	return nil
 }
 
 // workload tokens: 1,2 plain unary (gated), 3 retry-tagged (gated), 4 notification, 5 call in the reconnect window,
@@ -25,7 +128,10 @@ func scC03Fault(w *World, a Args, rng *rand.Rand) error {
 	if a.Str("dir", "s2c") == "s2c" {
 		dir = S2C
 	}
-	stall := a.Str("style", "fin") == "stall" // the link turns into a black hole (noticed through keepalive only)
+	// the link falls silent and is noticed through keepalive only: "stall" = black hole between frames, "stallmid" = inside the
+	// payload of a server-to-client frame, "halfopen" = only the server-to-client direction is swallowed
+	style := a.Str("style", "fin")
+	stall := style == "stall" || style == "stallmid" || style == "halfopen"
 	stallTimeout := 120 * time.Millisecond
 	c, err := w.NewClient(ClientOpts{Name: "A", NoPing: !stall, Ping: 15 * time.Millisecond, Timeout: stallTimeout, BackoffMin: 3 * time.Millisecond, BackoffMax: 15 * time.Millisecond,
 		NoReconnect: a.Bool("noreconnect"), Errors: a.Bool("errors")})
@@ -39,6 +145,9 @@ func scC03Fault(w *World, a Args, rng *rand.Rand) error {
 	}
 	if !stall {
 		pc.AddRule(&Rule{Dir: dir, Frame: a.Int("frame", 1), Pos: a.Str("pos", "after"), Style: a.Str("style", "fin")})
+	}
+	if style == "stallmid" {
+		pc.AddRule(&Rule{Dir: S2C, Frame: a.Int("frame", 1), Pos: "cut-payload", Style: "hole"})
 	}
 	if a.Bool("double") {
 		n := 0
@@ -92,8 +201,13 @@ func scC03Fault(w *World, a Args, rng *rand.Rand) error {
 	}
 	time.Sleep(2 * time.Millisecond)
 	stopTraffic := make(chan struct{})
-	if stall {
+	if style == "halfopen" {
+		pc.BlackholeDir(S2C)
+	}
+	if style == "stall" {
 		pc.Blackhole()
+	}
+	if stall {
 		if a.Bool("traffic") { // the application keeps sending (notifications) more often than the timeout
 			go func() {
 				for i := 0; ; i++ {
@@ -207,8 +321,12 @@ func scC05Outage(w *World, a Args, rng *rand.Rand) error {
 	w.WaitRunning(3, 300*time.Millisecond)
 	w.Rec.Emit("PhaseEnd", "phase", "healthy")
 	w.Proxy.SetDown(true)
-	w.Rec.Emit("WireFault", "conn", 1, "fault", "kill/"+a.Str("style", "fin"), "dir", "both", "frame", 0) // cause before effect in the log
-	w.Proxy.Last().Kill(a.Str("style", "fin"))
+	if a.Str("style", "fin") == "close1000" {
+		w.Proxy.Last().InjectClose(1000) // the server says goodbye with a normal-closure close frame
+	} else {
+		w.Rec.Emit("WireFault", "conn", 1, "fault", "kill/"+a.Str("style", "fin"), "dir", "both", "frame", 0) // cause before effect in the log
+		w.Proxy.Last().Kill(a.Str("style", "fin"))
+	}
 	w.Release(1)
 	w.Release(3)
 	// wait for k failed dials, issuing calls during the outage
